@@ -5,6 +5,7 @@ from qvlib.facts import op_local, op_place
 from qvlib.paths import Flow, call_matches, diverging_blocks, err_blocks, explore, path_desc
 
 CRATES = None
+OPTIONAL_FNS = ("Worker::notify_result", "Worker::deliver_message", "Worker::update_program")      # private Worker helpers that may be inlined into their only caller
 EXEC = "quiver_core::executor::Executor"
 RUNTIME = ("quiver_core", "quiver_environment", "quiv", "quiver_cli", "quiver_io", "quiver_web", "quiver_lsp")
 
@@ -212,7 +213,10 @@ def r3_error_propagation(ctx):
     ctx.rule(R, "a failed awaited process propagates ITS error: the Err stored into an awaiter's result in Executor::step and "
                 "Worker::notify_result derives from the awaited process's own result (no fresh error is constructed)")
     F = ctx.facts
-    for key, via in ((EXEC + "::step", "result"), ("quiver_environment::worker::Worker::notify_result", "result")):
+    wnr = "quiver_environment::worker::Worker::notify_result"
+    if wnr not in F.fns:
+        wnr = "quiver_environment::worker::Worker::update_await_results"      # the private helper inlined by hand into its only caller
+    for key, via in ((EXEC + "::step", "result"), (wnr, "result")):
         b = F.body(key)
         fl = Flow(b, through_named=True)
         n = 0
